@@ -355,11 +355,12 @@ func (l *log) GetByTime(start time.Time) (message.Message, error) {
 			}
 		case index.ErrTimeAfterEnd:
 			// time is between end of this and begin next
-			if i < len(l.readers)-1 && !emptyHead {
+			nextIsEmptyHead := emptyHead && i == len(l.readers)-2
+			if i < len(l.readers)-1 && !nextIsEmptyHead {
 				nextRdr := l.readers[i+1]
 				return nextRdr.Get(message.OffsetOldest)
 			}
-			// (the head segment was empty when we looked at it, do not look again:
+			// (when the head segment was empty as we looked at it, do not look again:
 			// a concurrent publish might be filling it with messages before this time)
 			return message.Invalid, errTimeNotFound
 		case index.ErrTimeIndexEmpty:
